@@ -11,6 +11,7 @@ import SuccinctlyVerif.Proof.JsonNavTree
 import SuccinctlyVerif.Proof.JsonNavDecode
 import SuccinctlyVerif.Proof.JsonNavRange
 import SuccinctlyVerif.Proof.JsonNavFull
+import SuccinctlyVerif.Proof.JsonNavFast
 namespace SV.Props.C06
 open SV SV.JsonNav SV.JsonText SV.JsonSemi
 
@@ -114,6 +115,14 @@ theorem prims_discharged (simd : Bool) (ibWords bpWords : List (BitVec 64)) (ibL
 example : (buildComposed true false [0x5B#8, 0x31#8, 0x2C#8, 0x5B#8, 0x5D#8, 0x5D#8]).map
     (fun x => (children x 0, textPosition x 3, parent x 3)) = some ([1, 3], some 3, some 0) := by
   decide +kernel
+
+/-- The array-backed primitives the driver uses on large documents (`Prims.fast`: array scans for
+`find_close` / `enclose`, prefix counts for `rank1`, the array of interest-bit positions for select)
+are the specification primitives, for all bit lists; so `build _ true` and `build _ false` are the
+same index on every input and the correspondence run validates the model the theorems are about. -/
+theorem prims_fast_eq (ib bp : List Bool) : Prims.fast ib bp = Prims.spec ib bp ∧
+    ∀ (f : Bool) (json : List (BitVec 8)), build f true json = build f false json :=
+  ⟨prims_fast_eq_spec ib bp, build_fast_eq⟩
 
 /-- `JsonFields::find` / `find_cursor` on the object at cursor `p` of any index: when every key
 decodes, the result is the value of the LAST field — in `uncons` order, which by `navigate_eq` is
